@@ -72,6 +72,21 @@ MCNext == \/ BuildFailCodec /\ Mark(1, "BuildFailCodec")
           \/ ClassicFallback /\ Mark(10, "ClassicFallback")
           \/ Deliver /\ Mark(11, "Deliver")
 
+\* "final key 0" configurations (MC_MpqBuild_zkey / MC_MpqBuild_negzkey): the literal key of N1 is replaced by the value
+\* that makes the FIX_KEY key (base + pos) XOR size of a 9-byte FIRST member (3 sectors, written at HeaderSize) exactly 0
+ZKeyBase == <<65535, 65536 - HeaderSize + 9>>
+ZFileKey(nm) == IF SameName(nm, N1) THEN ZKeyBase ELSE LitFileKey(nm)
+ASSUME FixKey(ZKeyBase, WFromNat(HeaderSize), WFromNat(9)) = <<0, 0>>
+ZF1Set == {[name |-> N1, len |-> n, cls |-> cl, method |-> m, enc |-> "encfix"] :
+             n \in {4, 9}, cl \in {"run", "random"}, m \in {0, ZLIB}}
+ZFileSeqs == {<<f1, F2, F3>> : f1 \in ZF1Set}
+MCInitZ == BInitWith(ZFileSeqs) /\ \A reg \in 1..11 : TLCSet(reg, 0)
+NegReaderDecryptsOn == "key"
+\* a sectored encrypted block whose key is 0 exists in some reachable state (negative control of the configuration itself)
+ZeroKeyBlock == \E j \in 1..Len(vblocks) : "ENCRYPTED" \in vblocks[j].flags /\ ~vblocks[j].single /\ vblocks[j].key = <<0, 0>>
+\* every inexact read in these configurations is a read of a zero-key block
+OnlyZeroKeyFails == (vlast.kind = "file" /\ vlast.out # "exact") => vblocks[vlast.file].key = <<0, 0>>
+
 NegBetWidth == "fsize"
 \* the driver's huge-member cases (Gen_MpqBuild!HugeCases) do cross the 64-bit entry width (the bound is an upper estimate
 \* with one bit of slack per field: the ordinary shift-8 file set has a real width of 63 bits and a bound of 66)
